@@ -68,6 +68,38 @@ def write_stream(fd, spec):
             time.sleep(pause)
 
 
+def logger_line(tag, stream, n, width):
+    """line n (0-based) of the endless stream a `logger` behaviour writes to `stream`"""
+    return (f"{tag} {stream} {n:010d} ".ljust(width - 1, ".") + "\n").encode()
+
+
+def run_logger(spec, name, attempt):
+    """write numbered fixed-width lines forever, alternating over spec["streams"] (default stdout,
+    stderr), one write(2) per line (width <= PIPE_BUF: a line is in the pipe completely or not at
+    all). After every successful write the number of lines completely written to that stream is
+    recorded with pwrite (8 bytes little endian; stdout at offset 0, stderr at offset 8) in
+    <dir of $PUPPET_LOG>/<spec["count_file"]>, so that the count survives a SIGKILL."""
+    import struct
+    width = spec.get("width", 32)
+    tag = spec.get("tag", name)
+    streams = spec.get("streams", ["stdout", "stderr"])
+    every = spec.get("every", 0)
+    path = os.path.join(os.path.dirname(os.environ.get("PUPPET_LOG", "/tmp/x")),
+                        spec.get("count_file", f"count-{name}-{attempt}.bin"))
+    cfd = os.open(path, os.O_RDWR | os.O_CREAT, 0o644)
+    os.pwrite(cfd, b"\0" * 16, 0)
+    fds = {"stdout": 1, "stderr": 2}
+    offs = {"stdout": 0, "stderr": 8}
+    n = 0
+    while True:
+        for st in streams:
+            os.write(fds[st], logger_line(tag, st, n, width))
+            os.pwrite(cfd, struct.pack("<Q", n + 1), offs[st])
+        n += 1
+        if every:
+            time.sleep(every)
+
+
 def main():
     if sys.argv[1] == "--script":
         # setup-script mode: puppet.py --script <name>; behaves like a single-attempt test called
@@ -199,6 +231,9 @@ def main():
                     time.sleep(min(0.02, max(0.0, end - time.monotonic())))
             log({"ev": "child-end", "test": name, "attempt": attempt})
             os._exit(0)
+
+    if beh.get("logger") is not None:
+        run_logger(beh["logger"], name, attempt)   # never returns
 
     if beh.get("stdout") is not None:
         write_stream(1, beh.get("stdout"))
